@@ -15,14 +15,14 @@ func init() {
 			"qinq.Mapper.UnregisterSubscriber", "qinq.Mapper.GetSubscriber", "qinq.Mapper.GetVLAN",
 			// pppoe/session.go: session id -> session, client MAC -> session id
 			"pppoe.NewSession", "pppoe.NewSessionManager", "pppoe.SessionManager.CreateSession", "pppoe.SessionManager.GetSession",
-			"pppoe.SessionManager.GetSessionByMAC", "pppoe.SessionManager.RemoveSession", "pppoe.SessionManager.CleanupExpired",
+			"pppoe.SessionManager.GetSessionByMAC", "pppoe.SessionManager.RemoveSession", "pppoe.SessionManager.CleanupExpired", "pppoe.SessionManager.unindexLocked",
 			// ebpf/loader.go: relay circuit-id key
 			"ebpf.MakeCircuitIDKey",
 		},
 		Undecided: []string{
 			"pkg/state/store.go (Lease/Session/Subscriber index maintenance) is not under contract",
 			"relay circuit-id keys: only the key function MakeCircuitIDKey is specified (exact key proved); the kernel map circuit_id_subscribers itself (Put/Delete/Lookup through cilium/ebpf) and the hash-based circuit_id_map are outside the Go heap model. Injectivity of the key is refuted by replay (truncation to 32 bytes, trailing NULs), not by an obligation",
-			"termination of SessionManager.CreateSession's probing loop is not claimed (no variant exists: the loop does not terminate when every id is in use; shown by a proved exit-unreachability lemma and a replay, see REPORT)",
+			"pppoe: a client MAC may hold several sessions (RFC 2516), so the MAC index cannot be a bijection; what is claimed for it is `rev` (every index entry leads to a live session with that MAC) plus the whole-view postconditions of RemoveSession/CleanupExpired (an index entry disappears only together with the session it refers to). That every live session is reachable by MAC is NOT claimed (after the newest session of a MAC is removed an older one of the same MAC is not re-indexed)",
 			"qinq: the S-TAG ranges slice of the Mapper configuration is assumed not to be mutated by the caller of NewMapper after construction",
 			"obligations answered 'unknown' where the expected answer is a counterexample (solver cannot build a model under the quantified invariants) are diagnosed by replay, see REPORT",
 		},
@@ -31,12 +31,11 @@ func init() {
 			"*VLANAllocation objects returned by Allocate/Get and *Session objects returned by CreateSession/GetSession are not mutated by callers in the fields the invariants read (STag, CTag; ID, ClientMAC), and the byte arrays behind Session.ClientMAC are not overwritten after CreateSession",
 			"inner maps of VLANAllocator.sTagUsage are reachable only through the allocator (never leaked)",
 			"NewVLANAllocator is called with Start <= End for both ranges (precondition; not validated by the code, see REPORT)",
-			"LoadFromStore: the elements of ntes are non-nil",
 		},
 		Trusted: []string{
 			"net.HardwareAddr.String is a function of the address bytes (uninterpreted)",
 			"crypto/rand.Read writes only into its argument; hex.EncodeToString, time.Now, fmt.Errorf have no effect on modelled state",
 		},
-		Explanation: "Per structure a bijection invariant is declared on the mutex-protected maps as two quantified lock invariants (fwd: the reverse index of a forward entry leads back to it; rev: every reverse entry has the matching forward entry), plus a range invariant for allocated tags and, for PPPoE, 'the session stored under id carries id and id != 0'. Every exported operation is verified to re-establish the invariants at Unlock and to satisfy whole-view postconditions (the view after the call equals the view at the linearisation point with exactly one key added/removed; every other mapping is unchanged). Release/Unregister/RemoveSession have whole-view postconditions stating that exactly the released key becomes unused. Known failing obligations (genuine defects, each with a replay on the real code): nexus LoadFromStore (duplicate pairs, stale reverse entries, out-of-range tags), AllocateWithSTag (S-TAG not range-checked; old pair lost on failure), findAvailable/findAvailableCTag (uint16 wrap when End=65535: out-of-range result or non-termination), pppoe CreateSession (second session of a MAC overwrites the index; id 0 after counter wrap; spins forever when all ids are in use), ebpf MakeCircuitIDKey (not injective).",
+		Explanation: "Per structure a bijection invariant is declared on the mutex-protected maps as two quantified lock invariants (fwd: the reverse index of a forward entry leads back to it; rev: every reverse entry has the matching forward entry), plus a range invariant for allocated tags and, for PPPoE, 'the session stored under id carries id and id != 0'. Every exported operation is verified to re-establish the invariants at Unlock and to satisfy whole-view postconditions (the view after the call equals the view at the linearisation point with exactly one key added/removed; every other mapping is unchanged). Release/Unregister/RemoveSession have whole-view postconditions stating that exactly the released key becomes unused. After the fixes fix_1..fix_4 (uint16 loop wrap in findAvailable/findAvailableCTag; AllocateWithSTag range check and keep-old-pair; LoadFromStore keep-the-first validation; CreateSession never id 0 / bounded probing / removal keeps the index entry of a newer session) every obligation discharges, termination of all loops included. Remaining C20 finding without an obligation: ebpf MakeCircuitIDKey is not injective (truncation to 32 bytes, trailing NULs; replay).",
 	})
 }
